@@ -193,6 +193,15 @@ impl Store {
         let data = fs::read(self.root.join(rel)).ok()?;
         #[cfg(all(feature = "verif", not(target_family = "wasm")))]
         veryl_path::sim::observe_read("blob.data", &self.root.join(rel), &data);
+        // The blob is content-addressed: its file name is the hash of its
+        // bytes. Verify it, so that any corruption the magic/version check
+        // cannot see (a flipped payload bit, another blob's bytes) is a miss
+        // instead of being decoded into a wrong fragment.
+        let name = Path::new(rel).file_stem()?.to_str()?;
+        if content_hash(&data) != name {
+            log::debug!("cache: blob {rel} does not match its content hash");
+            return None;
+        }
         let payload = data.strip_prefix(BLOB_MAGIC.as_slice())?;
         let (version, payload) = payload.split_first_chunk::<4>()?;
         if u32::from_le_bytes(*version) != SCHEMA_VERSION {
